@@ -259,7 +259,7 @@ func genRaw(t *rapid.T) rawOp {
 		X1:     rapid.SampledFrom(alphabet).Draw(t, "x1"),
 		X2:     rapid.SampledFrom(alphabet).Draw(t, "x2"),
 		Face:   uint64(rapid.IntRange(1, 4).Draw(t, "face")),
-		Origin: rapid.SampledFrom([]uint64{0, 0, 65, 128, 255}).Draw(t, "origin"),
+		Origin: rapid.SampledFrom([]uint64{0, 0, 0, 65, 128, 255, 5, 0x10005, 0x20005, 1<<32 + 65}).Draw(t, "origin"),
 		Cost:   rapid.SampledFrom([]uint64{0, 0, 1, 1, 2, 2, 5, 10, 1 << 33, 1 << 63, 1<<64 - 1}).Draw(t, "cost"),
 		Flags:  uint64(rapid.IntRange(0, 3).Draw(t, "flags")),
 		RmEx:   rapid.IntRange(0, 4).Draw(t, "rmex") > 0,
@@ -609,7 +609,7 @@ func runC06(c Case) (res evid.Result) {
 	return res
 }
 
-const ruleC06 = "rapid histories (<=40 ops) of AddEncRoute (re-registration with changed cost/flags included), RemoveRouteEnc, Rib.CleanUpFace and face.FaceTable.Remove over nested prefixes from {a,b,c,32=a,32=b}^0..4 (gap chains, siblings - also siblings differing only in the component type -, root), costs up to 2^64-1, strategy choices set and unset on the same prefixes in between, optional ExpirationPeriod (0, 50 ms, 1 s, 60 s) and virtual-time waits around those periods (a route whose period is over may stay or go: the reference adopts what the RIB lists; one without a period never goes), faces 1..4, origins {0,65,128,255}, all four flag combinations, on the name-tree or hash-table FIB; after every op FindNextHopsEnc over the universe, GetAllFIBEntries and Rib.GetAllEntries are compared with a from-scratch flattening of the harness's own route multiset. Non-trivial: history with a gap chain, >=1 capture flag and >=1 effective removal or face clean-up; distinct by case hash"
+const ruleC06 = "rapid histories (<=40 ops) of AddEncRoute (re-registration with changed cost/flags included), RemoveRouteEnc, Rib.CleanUpFace and face.FaceTable.Remove over nested prefixes from {a,b,c,32=a,32=b}^0..4 (gap chains, siblings - also siblings differing only in the component type -, root), costs up to 2^64-1, strategy choices set and unset on the same prefixes in between, optional ExpirationPeriod (0, 50 ms, 1 s, 60 s) and virtual-time waits around those periods (a route whose period is over may stay or go: the reference adopts what the RIB lists; one without a period never goes), faces 1..4, origins {0,65,128,255,5,0x10005,0x20005,2^32+65}, all four flag combinations, on the name-tree or hash-table FIB; after every op FindNextHopsEnc over the universe, GetAllFIBEntries and Rib.GetAllEntries are compared with a from-scratch flattening of the harness's own route multiset. Non-trivial: history with a gap chain, >=1 capture flag and >=1 effective removal or face clean-up; distinct by case hash"
 
 func TestC06Rib(t *testing.T) {
 	rec := evid.New("C06", "TestC06Rib", ruleC06)
